@@ -424,6 +424,21 @@ func installNatives(it *Interp) {
 			}
 			out.elems = append(out.elems, e)
 		}
+		// like the library, the operand is compacted in place: the kept elements move to the
+		// front of the same array and the rest is zeroed — whoever else holds the slice sees that
+		if len(out.elems) != len(s.elems) {
+			var zero Value = Nil{}
+			if len(s.elems) > 0 {
+				zero = it.zeroLike(s.elems[0])
+			}
+			for i := range s.elems {
+				if i < len(out.elems) {
+					s.elems[i] = out.elems[i]
+				} else {
+					s.elems[i] = it.zeroLike(zero)
+				}
+			}
+		}
 		return []Value{out}
 	}
 	n["slices.ContainsFunc"] = func(it *Interp, args []Value) []Value {
